@@ -129,9 +129,10 @@ Section Statements.
   Variables tnb tnk : str -> str.
   Variables accb acck : str -> str -> Prop.
   Variables rhb rhk whb whk : fhandle -> str -> nat -> Prop.
+  Variables hid anc : str -> Prop.
   Variable B0 : store.
 
-  Let Lb := base_laws base Vb Vk tnb accb rhb whb.
+  Let Lb := base_laws base Vb Vk tnb accb rhb whb hid anc.
   Let Lk := backup_laws backup Vb Vk tnk acck rhk whk.
   Let Lb2 := base_laws2 base Vb Vk tnb accb rhb whb.
   Let Cb := api_crash_laws base Vb.
@@ -158,7 +159,7 @@ Section Statements.
 
   (** at every instant of Rollback, from any state satisfying the invariant *)
   Definition rollback_always_stmt : Prop :=
-    Lb -> Lk -> Cb -> Ck -> links_ok tnb tnk accb acck B0 -> all_small B0 -> swf B0 ->
+    Lb -> Lk -> Cb -> Ck -> links_ok tnb tnk accb acck B0 -> all_small B0 -> swf B0 -> loc_ok hid anc B0 ->
     forall w, inv w -> always recov (b_rollback base backup) w.
 
   (** ... and of a history followed by Rollback *)
